@@ -483,6 +483,20 @@ func (u *Unit) evalCall(env *Env, e *Expr) Val {
 			return &Scalar{T: BoolLit(strings.HasPrefix(s.Origin, want)), Typ: types.Typ[types.Bool]}
 		}
 		return &Scalar{T: TFalse, Typ: types.Typ[types.Bool]}
+	case "isfunc":
+		// isfunc(x, "T.method"): x is (a bound-method value of) that package function
+		v := u.eval(env, args[0])
+		want := args[1].Name
+		if c, ok := v.(*ClosureV); ok {
+			fn := c.Fn.(*ssa.Function)
+			if strings.Contains(fn.Name(), "$bound") {
+				if t := u.boundTarget(fn); t != nil {
+					fn = t
+				}
+			}
+			return &Scalar{T: BoolLit(u.eng.funcKey(fn) == want), Typ: types.Typ[types.Bool]}
+		}
+		return &Scalar{T: TFalse, Typ: types.Typ[types.Bool]}
 	case "ctxof":
 		v := u.eval(env, args[0])
 		if s, ok := v.(*Scalar); ok && s.Aux != nil {
